@@ -185,7 +185,7 @@ func init() {
 					units = append(units, &eng.SeqSpec{UnitName: s.name(), Prop: "C03", Depth: s.depth, Split: 2, New: s.newState})
 				}
 			}
-			return units
+			return append(units, c03SchedUnits(tier)...)
 		},
 	})
 }
